@@ -127,6 +127,28 @@ theorem encodeAckDelay_no_wrap (delay : Int) (h : 0 ≤ delay) : encodeAckDelay_
   unfold encodeAckDelay_safe
   rw [Int.tdiv_eq_ediv_of_nonneg h]; omega
 
+/-! ### proved DIRECTLY about the translated source (no model function in between) -/
+
+/-- `CryptoFrame.MaxDataLen(maxSize)`: a CRYPTO frame carrying that many bytes at that offset fits `maxSize`
+    — as long as the data length still encodes in at most two bytes (`≤ 16383`) … -/
+theorem CryptoFrame_MaxDataLen_fits (maxSize off : Int) (h0 : 0 ≤ off) (h1 : off ≤ 4611686018427387903)
+    (hm : 0 ≤ maxSize) (hr : CryptoFrame_MaxDataLen maxSize off ≤ 16383) (hp : 0 < CryptoFrame_MaxDataLen maxSize off) :
+    CryptoFrame_Length (CryptoFrame_MaxDataLen maxSize off) off ≤ maxSize := by
+  have p0 := (varintLen_panics_false_iff off).2 h1
+  have l1 : 1 ≤ Uquic.Gen.TransVarint.varintLen off ∧ Uquic.Gen.TransVarint.varintLen off ≤ 8 := by
+    unfold Uquic.Gen.TransVarint.varintLen; tie_arith
+  unfold CryptoFrame_Length CryptoFrame_MaxDataLen at *
+  simp only [p0, varintLen_panics_iff_int, varintLen_eq_one_iff, Bool.false_eq_true, if_false] at *
+  generalize Uquic.Gen.TransVarint.varintLen off = L at *
+  unfold Uquic.Gen.TransVarint.varintLen
+  tie_arith
+
+/-- … and NOT beyond: with a 4-byte length the frame overshoots `maxSize` by two bytes (the function reserves one
+    byte for the length and gives back only one more).  Observation about /repo recorded in DESIGN §11 (C09);
+    here it is a kernel-checked fact about the regenerated source. -/
+theorem CryptoFrame_MaxDataLen_overshoot_witness :
+    CryptoFrame_Length (CryptoFrame_MaxDataLen 20000 0) 0 = 20002 := by decide
+
 example : ResetStreamFrame_Length 7 100 0 4 = 5 := by decide
 
 end Uquic.Props.TransWire
